@@ -36,8 +36,8 @@ prop("C10", "Cross-shard messages agree with the ledger", BF + ["contracts:^pars
      "Emitters produce wire(function, arguments) (loop invariants over the real string building loops); the emitted messages of ESDTTransfer, ESDTNFTTransfer, MultiESDTNFTTransfer (per-item token, nonce, value/payload), ESDTNFTCreateRoleTransfer and SetUserName are stated argument by argument; every emitted message parses back with the real parser (lemmas); the ESDT transfer parser's report (receiver, per-token identifier/nonce/value, attached call) is specified over the same argument terms as the ledger contracts of the built-in functions (parser = ledger). Not covered: acceptance of every continuation message by the destination-side function as a machine-checked lemma; attached-call function names containing '@' (known finding F9 class).")
 prop("C11", "Built-in functions are total", ["contracts:^builtInFunctions\\.", "vmcommon.SafeSubUint64", "vmcommon.IsAllowedToSaveUnderKey", "vmcommon.IsSystemAccountAddress"], ["safety", "allocbound"],
      "Automatic safety obligations (nil dereference, index/slice bounds, makeslice length and allocation bound, type assertions, division, explicit panics) on every instruction reachable from the 19 entry points (un-contracted callees are inlined), plus the output-shape clause.")
-prop("C12", "Transaction-data parsers are total and inverse to the builders", ["contracts:^parsers\\.", "re:^parsers\\.", "contracts:^builtInFunctions\\.lemmaEmitted", "builtInFunctions.addOutputTransferToVMOutput", "builtInFunctions.addNFTTransferToVMOutput"], ["safety", "allocbound"],
-     "Safety obligations (no panic, bounded allocation) on every function of package parsers under the input-size precondition; exact specification of tokenize/decodeToken/ParseData against the assumed contracts of strings.Split and encoding/hex; lemmas lemmaParseWire and lemmaEmittedMessageParses: every wire-format message, in particular every message the built-in functions' encoders emit, parses with the real call-arguments parser into exactly the encoded function and arguments. Not covered: the tx-data builder package (element-wise hex list) and the deploy / storage-update round trips (known finding F10 concerns the latter).",
+prop("C12", "Transaction-data parsers are total and inverse to the builders", ["contracts:^parsers\\.", "re:^parsers\\.", "contracts:^txDataBuilder\\.", "contracts:^builtInFunctions\\.lemmaEmitted", "builtInFunctions.addOutputTransferToVMOutput", "builtInFunctions.addNFTTransferToVMOutput"], ["safety", "allocbound"],
+     "Safety obligations (no panic, bounded allocation) on every function of package parsers under the input-size precondition; exact specification of tokenize/decodeToken/ParseData against the assumed contracts of strings.Split and encoding/hex; lemmas lemmaParseWire and lemmaEmittedMessageParses: every wire-format message, in particular every message the built-in functions' encoders emit, parses with the real call-arguments parser into exactly the encoded function and arguments. The tx-data builder: ToString of a well-formed builder is wire(function, decoded elements) for any number of elements (loop invariant), Bytes appends the hex of its argument, and lemmaBuilderRoundTrip composes builder and parser for a two-argument message. Not covered: the builder's numeric helpers (Int64 of a negative value drops the sign - outside the statement's byte-list arguments) and the deploy / storage-update round trips (known finding F10 concerns the latter).",
      extra_assume=["A5 strings.Split(s,'@') and encoding/hex contracts; Split o Join = id on the wire format (prelude axiom: neither a name without '@' nor a hex string contains '@')"])
 prop("C13", "Deterministic, input not modified", BF, ["frame", "alias"],
      "Frame proof: every heap component reachable from the input (all fields of ContractCallInput/VMInput, argument backing arrays) and every object that existed before the call is unchanged outside the declared modifies clause; byte slices are immutable values in the model and every store into one is rejected by the generator; appends onto shared prefixes must reallocate (cap == len object invariant). Determinism follows from the absence of goroutines, maps-range-dependent outputs and hidden state in the checked fragment plus deterministic dependencies (A10).")
@@ -52,7 +52,7 @@ P["C14"]["assumptions"] = [a for a in P["C14"]["assumptions"] if not a.startswit
 prop("C15", "Token state well-formed", BF, [],
      "WFvalues (every stored token entry decodes to a record with a non-negative value) is preserved by every entry point that writes token entries; zero-balance deletion is part of the exact-delta clauses. Partial: key-layout and no-duplicate-role clauses are not yet stated.")
 prop("C16", "Priced by its own schedule entry", BF, [],
-     "Each SetNewGasConfig installs the function's own BuiltInCost entry (and the whole base-cost block where used); each priced entry point consumes exactly its own cost plus the documented per-byte components; createGasConfig accepts exactly the complete non-zero schedules and GasScheduleChange leaves everything unchanged otherwise (given the assumed contracts of mapstructure.Decode and of the reflection helper check.ForZeroUintFields, the latter cross-checked by a bounded stand-in). Not covered: that an accepted change re-prices every registered function (dynamic dispatch over the registry).",
+     "Each SetNewGasConfig installs the function's own BuiltInCost entry (and the whole base-cost block where used); each priced entry point consumes exactly its own cost plus the documented per-byte components; createGasConfig accepts exactly the complete non-zero schedules and GasScheduleChange leaves everything unchanged otherwise (given the assumed contracts of mapstructure.Decode and of the reflection helper check.ForZeroUintFields, the latter cross-checked by a bounded stand-in). An accepted change (observable as a new b.gasConfig) re-prices EVERY registered function with its own entries: every in-repo SetNewGasConfig is verified against one interface contract (priced / pricesKept over the dynamic type), and the loop of GasScheduleChange over the registry keys carries the invariant 'every visited key is priced by the new schedule'; at construction the factory prices each function by its own entry (C18 clause).",
      bounded=[{"name": "check.ForZeroUintFields", "cmd": "tools/bounded_ifzero.sh", "bound": "exhaustive: all 2^6 + 2^16 zero/non-zero patterns of BaseOperationCost and BuiltInCost on the real code"}])
 prop("C17", "A failing dependency is never reported as success", BF, [],
      "Every listed dependency call sets the ghost flag 'failed' when it returns a non-nil (unconstrained, symbolic) error; every entry point proves err == nil => failed unchanged, so every k-th-call fault is covered by the universal quantifier.")
@@ -67,6 +67,9 @@ prop("C20", "Shared VM helper types obey their laws",
      ["safety", "frame"],
      "Exact specifications of the address classifiers, code metadata codec, SafeSubUint64 and output-account merging, plus ghost lemma functions for the round-trip laws, classification consistency, documented ground facts and the two-merge non-interference lemma.")
 P["C20"]["assumptions"] = ["A4 math/big contracts", "A5 bytes.Equal/bytes.Repeat contracts", "A13 []byte(constant) has cap==len", "A16 global invariants: established by package init (proved), preserved by every function (proved per function)"]
+for _pid in ["C01", "C02", "C03", "C04", "C05", "C06", "C07", "C09", "C11", "C13", "C16", "C17"]:
+    P[_pid].setdefault("bounded", []).append({"name": "real-code scenario sweep", "cmd": "tools/sweep.sh " + _pid,
+        "bound": "1 500 (quick) / 30 000 (thorough) seeded concrete scenarios per built-in function on the real code (in-memory world, real protobuf codec, injected dependency faults), executable oracle of the property; independent cross-check, never counted as proved"})
 import os
 floors = {}
 if os.path.exists('/verif/tools/floors.json'):
